@@ -462,11 +462,45 @@ theorem mem_rights {α β : Type} (b : β) (l : List (Sum α β)) : b ∈ rights
   | nil => simp [rights]
   | cons x l ih => cases x <;> simp [rights, ih]
 
-theorem lookup_of_entries (f : CMapFile) (es : List (Entry Nat)) (hes : EntriesOK es)
+/-- what the file itself (without parents and notdef entries) answers -/
+def ownLookup (f : CMapFile) (bytes : Bytes) : Option Nat :=
+  match findSingle bytes f.singles with
+  | some v => some v
+  | none => findRange bytes f.ranges
+
+theorem lookupMapped_cons (f : CMapFile) (parents : Chain) (bytes : Bytes) :
+    lookupMapped (f :: parents) bytes =
+      match ownLookup f bytes with
+      | some v => some v
+      | none => lookupMapped parents bytes := by
+  simp only [lookupMapped, ownLookup]
+  cases findSingle bytes f.singles with
+  | some v => rfl
+  | none =>
+    simp only
+    cases findRange bytes f.ranges with
+    | some v => rfl
+    | none => rfl
+
+/-- `LookupCID` of a file with parents: own mapping, else the ancestors' mapping, else the notdef
+entries of the whole chain starting with the file's own -/
+theorem lookupCID_cons (f : CMapFile) (parents : Chain) (bytes : Bytes) :
+    lookupCID (f :: parents) bytes =
+      match ownLookup f bytes with
+      | some v => v
+      | none => match lookupMapped parents bytes with
+        | some v => v
+        | none => lookupNotdef (f :: parents) bytes := by
+  simp only [lookupCID, lookupMapped_cons]
+  cases ownLookup f bytes with
+  | some v => rfl
+  | none => rfl
+
+theorem own_of_entries (f : CMapFile) (es : List (Entry Nat)) (hes : EntriesOK es)
     (hfun : ∀ e ∈ es, ∀ e' ∈ es, e.key ++ [e.x] = e'.key ++ [e'.x] → e.val = e'.val)
     (hs : f.singles = lefts (outOf es)) (hr : f.ranges = rights (outOf es)) :
-    (∀ e ∈ es, lookupCID [f] (e.key ++ [e.x]) = e.val) ∧
-    (∀ bytes, (∀ e ∈ es, bytes ≠ e.key ++ [e.x]) → lookupCID [f] bytes = lookupNotdef [f] bytes) := by
+    (∀ e ∈ es, ownLookup f (e.key ++ [e.x]) = some e.val) ∧
+    (∀ bytes, (∀ e ∈ es, bytes ≠ e.key ++ [e.x]) → ownLookup f bytes = none) := by
   have hsingle : ∀ bytes v, findSingle bytes f.singles = some v → ∃ e ∈ es, bytes = e.key ++ [e.x] ∧ v = e.val := by
     intro bytes v h
     obtain ⟨s, hs', h1, h2⟩ := findSingle_some bytes _ v h
@@ -479,16 +513,17 @@ theorem lookup_of_entries (f : CMapFile) (es : List (Entry Nat)) (hes : EntriesO
     exact out_sound es hes _ hr' bytes v ⟨i, h1, h2⟩
   constructor
   · intro e he
-    simp only [lookupCID]
+    simp only [ownLookup]
     cases h1 : findSingle (e.key ++ [e.x]) f.singles with
     | some v =>
       obtain ⟨e', he', h2, h3⟩ := hsingle _ v h1
-      simp only; rw [h3]; exact (hfun e he e' he' h2).symm
+      simp only; rw [h3, hfun e he e' he' h2]
     | none =>
+      simp only
       cases h2 : findRange (e.key ++ [e.x]) f.ranges with
       | some v =>
         obtain ⟨e', he', h3, h4⟩ := hrange _ v h2
-        simp only; rw [h4]; exact (hfun e he e' he' h3).symm
+        rw [h4, hfun e he e' he' h3]
       | none =>
         exfalso
         obtain ⟨item, hi, hc⟩ := out_complete es hes e he
@@ -501,13 +536,24 @@ theorem lookup_of_entries (f : CMapFile) (es : List (Entry Nat)) (hes : EntriesO
           have := findRange_none _ _ h2 r (by rw [hr, mem_rights]; exact hi)
           rw [this] at hi'; cases hi'
   · intro bytes hno
-    simp only [lookupCID]
+    simp only [ownLookup]
     cases h1 : findSingle bytes f.singles with
     | some v => obtain ⟨e, he, h2, _⟩ := hsingle _ v h1; exact absurd h2 (hno e he)
     | none =>
+      simp only
       cases h2 : findRange bytes f.ranges with
       | some v => obtain ⟨e, he, h3, _⟩ := hrange _ v h2; exact absurd h3 (hno e he)
       | none => rfl
+
+theorem lookup_of_entries (f : CMapFile) (es : List (Entry Nat)) (hes : EntriesOK es)
+    (hfun : ∀ e ∈ es, ∀ e' ∈ es, e.key ++ [e.x] = e'.key ++ [e'.x] → e.val = e'.val)
+    (hs : f.singles = lefts (outOf es)) (hr : f.ranges = rights (outOf es)) :
+    (∀ e ∈ es, lookupCID [f] (e.key ++ [e.x]) = e.val) ∧
+    (∀ bytes, (∀ e ∈ es, bytes ≠ e.key ++ [e.x]) → lookupCID [f] bytes = lookupNotdef [f] bytes) := by
+  obtain ⟨l1, l2⟩ := own_of_entries f es hes hfun hs hr
+  constructor
+  · intro e he; rw [lookupCID_cons, l1 e he]
+  · intro bytes hno; rw [lookupCID_cons, l2 bytes hno]; simp [lookupMapped]
 
 theorem splitLast_eq (buf key : Bytes) (x : Nat) (h : splitLast buf = some (key, x)) : buf = key ++ [x] := by
   induction buf generalizing key with
